@@ -31,6 +31,16 @@ def _seed_torch(ctx) -> torch.Generator:
 F32_EPS = Fraction(1, 1 << 23)  # torch.finfo(torch.float32).eps
 
 
+def _welford_bound(u: float, r: float, n1: int, n: int, nb: int) -> float:
+    """Relative error bound of the running standard deviation of the batched Welford update AS CODED, with unit
+    roundoff `u`, conditioning `r = |mean| / std` of everything observed, first batch size `n1` (its `delta` is taken
+    against the initial mean 0, so it behaves like the naive formula and contributes `r²·n1/n`), `n` values in `nb`
+    batches.  The clean code stays below 0.19× this bound (measured worst case over quick seeds 0–5 and thorough
+    seeds 0–2, float32 and float64, r ∈ {50, 300, 1000}); the checks use 1× (> 5× the measured worst case); a
+    sum-of-squares implementation is off by 7–320× the bound."""
+    return 1.5 * u * (r * r * (n1 / max(n, 1)) * (math.log2(max(n1, 2)) + 1) + r * math.sqrt(max(nb, 1)) + math.log2(n + 2) + 4)
+
+
 def _dyadic(rng, bits=4, lo=-8, hi=8) -> float:
     return rng.randrange(lo << bits, (hi << bits) + 1) / (1 << bits)
 
@@ -173,9 +183,16 @@ def check_scaler(ctx):
             if exact:
                 good = fr(mu) == s_mean[t_idx] and fr(m2) == s_ssq[t_idx]
             else:
-                tol = 1e-5 if dtype == torch.float32 else 1e-11
-                good = abs(mu - float(s_mean[t_idx])) <= tol * scale_mag * 4 and \
-                    abs(m2 - float(s_ssq[t_idx])) <= tol * max(scale_mag * scale_mag * N, float(s_ssq[t_idx])) * 8
+                uu = 2.0 ** -24 if dtype == torch.float32 else 2.0 ** -53
+                ref_m2, ref_mu = float(s_ssq[t_idx]), float(s_mean[t_idx])
+                sd = math.sqrt(ref_m2 / (N - 1)) if N > 1 and ref_m2 > 0 else 0.0
+                if sd > 0:
+                    # tolerance from the error bound of the Welford update as coded (NOT of a sum-of-squares formula)
+                    bnd = _welford_bound(uu, abs(ref_mu) / sd, len(hist_q[0]), N, t_idx + 1)
+                    tol_m2 = 2 * bnd * ref_m2
+                else:
+                    tol_m2 = 16 * uu * max(scale_mag * scale_mag * N, 1e-300)  # constant data: M2 should be ~0
+                good = abs(mu - ref_mu) <= 8 * uu * scale_mag * math.sqrt(t_idx + 2) and abs(m2 - ref_m2) <= tol_m2
             if not good:
                 # model ≠ code; the spec (= model) says what the statistics of everything seen are
                 ctx.violation("scaler-statistics",
@@ -218,9 +235,12 @@ def check_scaler(ctx):
             # rounding of the real code (not modelled): the error of (x - mean) is amplified by 1/fac and the
             # relative error of M2 is about u·N·|x|²/M2; skip when the data are numerically constant at this
             # precision (ill-conditioned), otherwise widen the tolerance accordingly
-            err_in = 8 * u * scale_mag
-            rel_fac = 0.0 if exact else 0.5 * 8 * u * N * scale_mag * scale_mag / max(float(s_ssq[t_idx]), 1e-300)
-            if not exact and (err_in / fac > 1e-3 or rel_fac > 1e-3):
+            uu = 2.0 ** -24 if dtype == torch.float32 else 2.0 ** -53
+            err_in = 8 * uu * scale_mag * math.sqrt(t_idx + 2)
+            # relative error of the running std: Welford's bound (as coded), not the naive algorithm's
+            rel_fac = 0.0 if exact else (_welford_bound(uu, abs(float(s_mean[t_idx])) / std, len(hist_q[0]), N, t_idx + 1)
+                                         + 2.0 ** -24 if std > 0 else float("inf"))  # + float32 square root
+            if not exact and (err_in / fac > 1e-3 or rel_fac > 2e-2):
                 ctx.count("scaler.output-skipped-degenerate-variance")
                 continue
             if o.shape != tens[t_idx].shape:
@@ -238,6 +258,90 @@ def check_scaler(ctx):
             break
     ctx.note("RewardScaler with a single observed value (N = 1): M2/(count-1) = 0/0 → NaN scores on the real code "
              "(the sample standard deviation of one value is undefined; theorems assume N ≥ 2)")
+
+
+def check_scaler_conditioning(ctx):
+    """Conditioning probe: scores whose |mean| is much larger than their spread (un-normalised tour lengths, makespans):
+    |mean|/std ∈ {50, 300, 1000}, float32 and float64, a small first batch followed by 2–8 batches of 64–512 values, many
+    small batches, and long histories.  The REAL running std must agree with the sample std of everything observed to the
+    error bound of the Welford update as coded (`_welford_bound`; threshold 1× the bound > 5× the clean code's measured
+    worst case 0.19×).  A numerically different algorithm (running Σx, Σx² with M2 = Σx² − n·mean²) is off by 7–320× the
+    bound although it is algebraically equal.  Reference: two-pass float64 with exactly rounded sums (`math.fsum`)."""
+    from rl4co.models.rl.common.utils import RewardScaler
+
+    reps = ctx.budget(1, 4)
+    worst = {"float32": 0.0, "float64": 0.0}
+    for rep_i in range(reps):
+        for dtype in (torch.float32, torch.float64):
+            uu = 2.0 ** -24 if dtype == torch.float32 else 2.0 ** -53
+            for ratio in (50, 300, 1000):
+                for layout in ("small-first+large", "many-small", "long"):
+                    rng = ctx.rng
+                    g = _seed_torch(ctx)
+                    std = rng.choice([0.5, 1.0, 2.0])
+                    mean = -ratio * std * rng.choice([1, 1, -1])
+                    if layout == "small-first+large":
+                        sizes = [rng.choice([1, 2, 4, 16])] + [rng.choice([64, 128, 256, 512]) for _ in range(rng.randint(2, 8))]
+                    elif layout == "many-small":
+                        sizes = [rng.choice([1, 2, 3, 5, 8]) for _ in range(rng.randint(200, 400))]
+                    else:
+                        sizes = [rng.choice([256, 512])] * ctx.budget(120, 1000)
+                    mode = rng.choice(["norm", "scale"])
+                    two_d = rng.random() < 0.3
+                    sc = RewardScaler(mode)
+                    seen: List[float] = []
+                    ctx.count(f"scaler.cond.{str(dtype)[6:]}.ratio{ratio}.{layout}")
+                    ctx.case(("scaler-cond", rep_i, str(dtype), ratio, layout), nontrivial=True)
+                    flagged = False
+                    for bi, n in enumerate(sizes):
+                        x = (torch.randn(n, generator=g, dtype=torch.float64) * std + mean).to(dtype)
+                        xin = x.reshape(2, -1) if (two_d and n % 2 == 0 and n > 2) else x
+                        out = sc(xin.clone())
+                        seen += x.tolist()
+                        N = len(seen)
+                        if N < 32 or (bi % 16 and bi != len(sizes) - 1 and layout != "small-first+large"):
+                            continue
+                        m_ref = math.fsum(seen) / N
+                        ssq = math.fsum((v - m_ref) ** 2 for v in seen)
+                        s_ref = math.sqrt(ssq / (N - 1))
+                        s_code = math.sqrt(max(float(sc.M2), 0.0) / (N - 1))
+                        rel = abs(s_code - s_ref) / s_ref
+                        bnd = _welford_bound(uu, abs(m_ref) / s_ref, sizes[0], N, bi + 1)
+                        worst[str(dtype)[6:]] = max(worst[str(dtype)[6:]], rel / bnd)
+                        wit = {"dtype": str(dtype), "mean": mean, "std": std, "batch_sizes": sizes[:12], "batches_seen": bi + 1,
+                               "values_seen": N, "mode": mode}
+                        if int(sc.count) != N or abs(float(sc.mean) - m_ref) > 8 * uu * abs(m_ref) * math.sqrt(bi + 2):
+                            ctx.violation("scaler-statistics", "running count / mean are not those of all values observed",
+                                          {**wit, "code": [int(sc.count), float(sc.mean)], "reference": [N, m_ref]})
+                            flagged = True
+                            break
+                        if rel > bnd:
+                            ctx.violation("scaler-statistics",
+                                          "running std (sqrt(M2/(count-1))) differs from the sample std of all values observed by more "
+                                          "than the error bound of the Welford update (ill-conditioned scores: |mean| ≫ std)",
+                                          {**wit, "code_std": s_code, "reference_std": s_ref, "relative_error": rel,
+                                           "welford_bound": bnd, "error_over_bound": rel / bnd})
+                            flagged = True
+                            break
+                        # the scaled output of this very call
+                        if bnd < 2e-2:
+                            eps = float(F32_EPS) if dtype == torch.float32 else 2.0 ** -52
+                            ref = [((v - m_ref) if mode == "norm" else v) / (s_ref + eps) for v in x.tolist()[:8]]
+                            got = out.reshape(-1).tolist()[:8]
+                            tolo = [abs(r_) * (bnd + 2.0 ** -23) + 16 * uu * abs(m_ref) / s_ref + 1e-6 for r_ in ref]
+                            if any(abs(a - b) > t for a, b, t in zip(got, ref, tolo)):
+                                ctx.violation("scaler-output", f"RewardScaler('{mode}') output differs from the stated transformation "
+                                              "beyond the Welford error bound", {**wit, "code": got[:4], "reference": ref[:4]})
+                                flagged = True
+                                break
+                            ctx.count("scaler.cond.outputs-checked")
+                    if not flagged:
+                        ctx.count("scaler.cond.histories-within-bound")
+    ctx.note("conditioning probe: worst (relative error of the running std) / (Welford bound) on this run: "
+             + ", ".join(f"{k}: {v:.3f}" for k, v in worst.items())
+             + "; threshold 1.0 (clean code measured ≤ 0.19 over quick seeds 0–5 and thorough seeds 0–2, i.e. threshold > 5× the clean worst case)")
+    ctx.sample({"unit": "train", "what": "RewardScaler conditioning probe", "worst_error_over_welford_bound": worst,
+                "threshold": 1.0, "clean_worst_case_quick_seeds_0_5_thorough_0_2": 0.19}, cap=5)
 
 
 def check_ema(ctx):
@@ -483,6 +587,7 @@ def check_warmup(ctx):
 
 def run_c20(ctx):
     check_scaler(ctx)
+    check_scaler_conditioning(ctx)
     check_ema(ctx)
     check_warmup(ctx)
 
@@ -493,7 +598,8 @@ C20_NOTE = ("RewardScaler / ExponentialBaseline / WarmupBaseline modelled statem
             "the square root is an uninterpreted function in the model (theorems hold for every `sq`), its value is supplied by "
             "the harness; N = 1 (division by count-1 = 0 → NaN in the real code) is excluded by hypothesis and only probed")
 
-C20_MODULES = ["Rl4co.Props.C20.TrainWelford", "Rl4co.Props.C20.TrainBaselines", "Rl4co.Props.C20.TrainCoded"]
+C20_MODULES = ["Rl4co.Props.C20.TrainWelford", "Rl4co.Props.C20.TrainBaselines", "Rl4co.Props.C20.TrainCoded",
+               "Rl4co.Props.C20.TrainSpecSanity"]
 C20_THEOREMS = [
     Theorem("Rl4co.Train.Welford.welford_exact", "proved",
             "after ANY list of batches (any sizes): count = N, mean = Σx/N, M2 = Σ(x − mean)² of everything observed "
@@ -531,6 +637,12 @@ C20_THEOREMS = [
     Theorem("Rl4co.Train.ema_coded", "proved", "first value = mean; afterwards beta·v+(1−beta)·mean, also when v = 0 (as coded)"),
     Theorem("Rl4co.Train.warmup_alpha_coded", "proved", "alpha after epoch e = min 1 ((e+1)/n) for the as-coded callback, every e"),
     Theorem("Rl4co.Train.warmup_convex_coded", "proved", "warm-up mixture for the as-coded eval"),
+    Theorem("Rl4co.Spec.Train.mean_shift", "proved", "Spec sanity: shifting every observation by c shifts the mean by c"),
+    Theorem("Rl4co.Spec.Train.sampleVar_shift", "proved", "Spec sanity: the sample variance does not depend on where the scores are centred"),
+    Theorem("Rl4co.Spec.Train.sumSqDev_const", "proved", "Spec sanity: constant observations have zero spread"),
+    Theorem("Rl4co.Spec.Train.warmupAlpha_bounds", "proved", "Spec sanity: the warm-up weight lies in (0, 1]"),
+    Theorem("Rl4co.Spec.Train.warmupAlpha_mono", "proved", "Spec sanity: … and never decreases"),
+    Theorem("Rl4co.Spec.Train.ema_const_history", "proved", "Spec sanity: a constant history keeps the moving average constant (weights sum to 1)"),
 ]
 
 register(Unit("C20", "train", run_c20, drivers=["drv_train"], lean_modules=C20_MODULES, theorems=C20_THEOREMS,
@@ -654,9 +766,11 @@ class _BlTok:
         raise TypeError(type(bl))
 
 
-def _compare_loss(ctx, tag, rep, code_loss, code_dd, dbl, wit, scale_d=1.0):
-    """model (v, d) vs code loss / θ·grad, and reference vs code; returns False when something was flagged"""
+def _compare_loss(ctx, tag, rep, code_loss, code_dd, dbl, wit, scale_d=1.0, xtol=0.0):
+    """model (v, d) vs code loss / θ·grad, and reference vs code; returns False when something was flagged;
+    `xtol`: additional relative tolerance (error bound of a float computation that is outside the model)"""
     rt_v, rt_d = _tol(dbl)
+    rt_v, rt_d = rt_v + xtol, rt_d + xtol
     mv, md = pdual(rep["loss"])
     okay = True
     if not close(code_loss, mv, rt_v):
@@ -669,11 +783,12 @@ def _compare_loss(ctx, tag, rep, code_loss, code_dd, dbl, wit, scale_d=1.0):
 
 
 def _judge_reference(ctx, tag, what, model_vd, spec_vd, code_loss, code_dd, dbl, wit, scale_d, model_ok,
-                     check_d=True, key="loss-not-reference-surrogate"):
+                     check_d=True, key="loss-not-reference-surrogate", xtol=0.0):
     """The reference surrogate (Lean Spec, evaluated on the recorded rollout) against the REAL loss and θ·grad:
     a difference is a violation of the property itself (whether or not the model follows the code); when the
     code agrees with both, model and reference must agree exactly (the theorems say so)."""
     rt_v, rt_d = _tol(dbl)
+    rt_v, rt_d = rt_v + xtol, rt_d + xtol
     sv, sd = spec_vd
     bad_v = not close(code_loss, sv, rt_v)
     bad_d = check_d and not close(code_dd, sd, rt_d, atol=rt_d * scale_d)
@@ -692,6 +807,7 @@ class _ScalerTrack:
 
     def __init__(self, mode, dbl):
         self.mode, self.dbl, self.hist = mode, dbl, []
+        self.bound = 0.0  # relative error bound of the real scaler's std for the current step (Welford, as coded)
 
     def token(self, ctx, mk_line):
         """returns the `scale` token for this step, or None when the step is outside the theorems (N < 2) or
@@ -717,6 +833,10 @@ class _ScalerTrack:
         std = fr(float(torch.tensor(float(var), dtype=torch.float32).sqrt()))  # the code takes the root in float32
         fac = std + eps
         if float(fac) < 1e-4:
+            return None
+        uu = 2.0 ** -53 if self.dbl else 2.0 ** -24
+        self.bound = _welford_bound(uu, abs(float(mean)) / max(float(std), 1e-300), len(self.hist[0][1]), N, len(self.hist)) + 2.0 ** -24
+        if self.bound > 2e-2:
             return None
         return f"norm {fs(mean)} {fs(fac)}" if self.mode == "norm" else f"div {fs(fac)}"
 
@@ -749,12 +869,17 @@ def _judge_step(ctx, tag, loss, code_dd, R, ll, dll, bl_val, rtok, ltok, btok, s
     scale_d = sum(abs(d) for d in dll) / max(1, len(dll)) * (float(R.abs().max()) + 1)
     if sc_tok != "off":
         scale_d *= 10
-    okay = _compare_loss(ctx, tag, rep, float(loss), code_dd, dbl, wit, scale_d)
+    # with an active scaler the loss inherits the relative error of the real running std (float, outside the model):
+    # its Welford bound widens the tolerance; for 'norm' the mean's error counts relative to the std as well
+    xtol = 0.0
+    if scaler is not None and sc_tok not in ("off",) and not isinstance(scaler.mode, int):
+        xtol = 4 * scaler.bound
+    okay = _compare_loss(ctx, tag, rep, float(loss), code_dd, dbl, wit, scale_d, xtol=xtol)
     if rep["advshape"] != rep["rewardshape"]:
         ctx.violation("advantage-broadcast", f"{tag}: advantage shape {rep['advshape']} ≠ reward shape {rep['rewardshape']}", wit)
     if rep.get("spec", "na") != "na":
         _judge_reference(ctx, tag, "−mean((R−b)·ll) + bl_loss recomputed per sample", pdual(rep["loss"]), pdual(rep["spec"]),
-                         float(loss), code_dd, dbl, wit, scale_d, okay)
+                         float(loss), code_dd, dbl, wit, scale_d, okay, xtol=xtol)
         ctx.count("c16.reference-evaluated")
     else:
         ctx.count("c16.reference-na")
@@ -1058,6 +1183,53 @@ def check_calc_loss(ctx):
                 _after_callback(ctx, tag, bltok, model.baseline, e, wit)
 
 
+def check_calc_loss_conditioning(ctx):
+    """`calculate_loss` with an active advantage scaler on ILL-CONDITIONED advantages (no baseline, rewards with
+    |mean| ≫ std as for un-normalised tour lengths): a small first step then larger ones, float32 and float64.  The
+    loss must match the reference within the Welford error bound of the real running std."""
+    from rl4co.models.rl import REINFORCE
+
+    env = _mk_env(4, False)
+    policy = tiny_policy("am", "tsp", False)
+    for rep_i in range(ctx.budget(1, 3)):
+        for dbl in (False, True):
+            for ratio in (50, 300, 1000):
+                rng = ctx.rng
+                gen = _seed_torch(ctx)
+                dtype = torch.float64 if dbl else torch.float32
+                mode = rng.choice(["norm", "scale"])
+                std = rng.choice([0.5, 1.0, 2.0])
+                mean = -ratio * std
+                model = REINFORCE(env, policy, baseline="no", reward_scale=mode)
+                model.log_dict = _noop
+                bltok = _BlTok(ctx, model.baseline, None)
+                scaler = _ScalerTrack(mode, dbl)
+                sizes = [rng.choice([2, 4])] + [rng.choice([32, 64]) for _ in range(rng.randint(3, 5))]
+                ctx.count(f"c16.calc-cond.{'f64' if dbl else 'f32'}.ratio{ratio}")
+                for e, n in enumerate(sizes):
+                    R = (torch.randn(n, generator=gen, dtype=torch.float64) * std + mean).to(dtype)
+                    llv = -(torch.rand(n, generator=gen, dtype=torch.float64) * 3 + 1).to(dtype)
+                    v = torch.randn(n, generator=gen, dtype=torch.float64)
+                    if n % 8 == 0 and rng.random() < 0.4:
+                        R, llv = R.reshape(8, -1), llv.reshape(8, -1)
+                    ll = llv.clone().requires_grad_(True)
+                    snap = bltok.snapshot()
+                    wit = {"kind": "no baseline, ill-conditioned rewards", "mean": mean, "std": std, "step": e, "sizes": sizes,
+                           "reward_scale": mode, "dtype": "f64" if dbl else "f32"}
+                    out = model.calculate_loss(None, {}, {}, R, ll)
+                    loss = out["loss"]
+                    if bool(torch.isnan(loss)):
+                        code_dd = float("nan")
+                    else:
+                        (g,) = torch.autograd.grad(loss, ll)
+                        code_dd = float((g.double().reshape(-1) * v).sum())
+                    dll = v.tolist()
+                    btok = bltok.tokens(model.baseline, snap, None, None, env, False, None)
+                    _judge_step(ctx, "calculate_loss[ill-conditioned]", loss, code_dd, R, ll, dll, out["bl_val"], ten_tokens(R),
+                                ten_tokens(llv, dll), btok, scaler, dbl, wit)
+                    ctx.case(("calc-cond", rep_i, dbl, ratio, e), nontrivial=True)
+
+
 def _tour_len(locs_row, actions_row) -> float:
     pts = locs_row[actions_row]
     return float((pts - pts.roll(-1, dims=0)).norm(dim=-1).sum())
@@ -1143,6 +1315,47 @@ def check_a2c(ctx):
                 break
             dirn.sgd_step(loss, lr=0.05)
         pcap.remove()
+
+
+def check_a2c_optimizers(ctx):
+    """`A2C.configure_optimizers`: one optimizer with two parameter groups — the policy with the actor's options, the critic
+    baseline with its own (defaulting to the actor's); every parameter belongs to exactly one group."""
+    from rl4co.models.rl import A2C
+
+    for c in range(ctx.budget(4, 12)):
+        _seed_torch(ctx)
+        env = _mk_env(4, False)
+        policy = tiny_policy("am", "tsp", False)
+        a_lr = ctx.rng.choice([1e-3, 2e-4, 5e-2])
+        c_lr = ctx.rng.choice([None, 5e-3, 1e-5]) if c else None
+        kw = {"actor_optimizer_kwargs": {"lr": a_lr}}
+        if c_lr is not None:
+            kw["critic_optimizer_kwargs"] = {"lr": c_lr}
+        if c == 1:
+            kw = {}  # every option at its default
+            a_lr = 1e-4
+            c_lr = None
+        model = A2C(env, policy, critic=_mk_critic(policy, False), **kw)
+        opt = model.configure_optimizers()
+        groups = opt.param_groups
+        rep = parse_fields(ctx.driver.ask(f"train.a2cgroups {fs(fr(a_lr))} " + ("none" if c_lr is None else f"some {fs(fr(c_lr))}")))
+        mg = [g.split(":") for g in rep["groups"].split(",")]
+        ctx.case(("a2c-optim", c), nontrivial=True)
+        ctx.count("c16.a2c.optimizer." + ("critic-lr-default" if c_lr is None else "critic-lr-given"))
+        wit = {"actor_lr": a_lr, "critic_lr": c_lr}
+        pol_ids = {id(p_) for p_ in policy.parameters()}
+        cri_ids = {id(p_) for p_ in model.baseline.parameters()}
+        want = [("policy", a_lr, pol_ids), ("critic", a_lr if c_lr is None else c_lr, cri_ids)]
+        ok = len(groups) == 2
+        for g, (nm, lr, ids) in zip(groups, want):
+            ok = ok and {id(p_) for p_ in g["params"]} == ids and g["lr"] == lr
+        if not ok:
+            ctx.violation("a2c-optimizer-groups", "A2C.configure_optimizers: a network's parameters are not optimised with the "
+                          "learning rate configured for it", {**wit, "groups": [(len(g["params"]), g["lr"]) for g in groups]})
+        elif [(m_[0], float(Fraction(m_[1]))) for m_ in mg] != [(nm, lr) for nm, lr, _ in want]:
+            ctx.disagreement("as-coded A2C group model ≠ reference although the real optimizer matches", wit)
+        if pol_ids & cri_ids:
+            ctx.violation("a2c-optimizer-groups", "policy and critic share parameters (the critic must own a copy of the encoder)", wit)
 
 
 def check_ppo(ctx):
@@ -1315,6 +1528,22 @@ def check_symnco(ctx, only=None):
             ctx.count("c16.symnco.layout-verified")
         else:
             ctx.disagreement("SymNCO: flat layout is not start-outer / augmentation-middle / instance-inner", wit)
+        if A > 1 and "proj_embeddings" in out and torch.is_tensor(out["loss_inv"]):
+            # which rows of the projected embeddings `invariance_loss` compares: as coded vs. same-instance pairs
+            pe = out["proj_embeddings"].detach()
+            cos = torch.nn.functional.cosine_similarity
+            repi = parse_fields(ctx.driver.ask(f"train.invrows {A} {B}"))
+            prs = [tuple(int(x) for x in p_.split("-")) for p_ in repi["pairs"].split(",")]
+            coded = sum(cos(pe[r0], pe[r1], dim=-1).mean() for r0, r1 in prs) / B
+            sem = sum(cos(pe[0 * B + b_], pe[i_ * B + b_], dim=-1).mean() for b_ in range(B) for i_ in range(1, A)) / B
+            rt_v0, _ = _tol(dbl)
+            if close(float(out["loss_inv"]), float(coded), max(rt_v0, 1e-6)):
+                ctx.count("c16.symnco.invariance-term=rows-as-coded(b·A, b·A+i)")
+            elif close(float(out["loss_inv"]), float(sem), max(rt_v0, 1e-6)):
+                ctx.count("c16.symnco.invariance-term=same-instance-pairs")
+                ctx.disagreement("invariance_loss compares same-instance rows, the as-coded index model does not", wit)
+            else:
+                ctx.disagreement("invariance_loss matches neither index model", wit)
         inv = out["loss_inv"]
         inv_v, inv_d = (float(inv), dirn.dd(inv)) if torch.is_tensor(inv) else (float(inv), 0.0)
         dll = dirn.dd_each(ll)
@@ -1381,6 +1610,7 @@ class _LinPolicy(torch.nn.Module):
 def _per_instance(policy, env, dataset):
     """reward of every instance of a data set, one instance at a time (no batching involved)"""
     out = []
+    policy.eval()  # the baseline rolls policies out in eval mode (`policy.eval()` in RolloutBaseline.rollout)
     with torch.inference_mode():
         for i in range(len(dataset)):
             td = env.reset(dataset.collate_fn([dataset[i]]))
@@ -1517,9 +1747,11 @@ def check_rollout_baseline(ctx):
 
 def run_c16(ctx):
     check_calc_loss(ctx)
+    check_calc_loss_conditioning(ctx)
     check_reinforce(ctx)
     check_pomo(ctx)
     check_a2c(ctx)
+    check_a2c_optimizers(ctx)
     check_ppo(ctx)
     check_symnco(ctx)
     check_rollout_baseline(ctx)
@@ -1532,7 +1764,8 @@ C16_NOTE = ("losses modelled over dual numbers (value, directional derivative) a
 
 C16_MODULES = ["Rl4co.Props.C16.TrainReinforce", "Rl4co.Props.C16.TrainPpo", "Rl4co.Props.C16.TrainSymnco",
                "Rl4co.Props.C16.TrainCoded", "Rl4co.Props.C20.TrainCoded", "Rl4co.Props.C16.TrainSymncoFlat",
-               "Rl4co.Props.C16.TrainPpoKink", "Rl4co.Props.C16.TrainRollout"]
+               "Rl4co.Props.C16.TrainPpoKink", "Rl4co.Props.C16.TrainRollout", "Rl4co.Props.C16.TrainPpoNorm",
+               "Rl4co.Props.C16.TrainSymncoInv", "Rl4co.Props.C20.TrainSpecSanity"]
 C16_THEOREMS = [
     Theorem("Rl4co.Train.reinforce_vec", "proved",
             "REINFORCE, per-instance baseline [n] (critic, rollout `extra`, warm-up mixtures), any advantage scaling: loss = "
@@ -1592,6 +1825,17 @@ C16_THEOREMS = [
     Theorem("Rl4co.Train.RolloutBl.epochCallback_policy", "proved", "RolloutBaseline.epoch_callback replaces the frozen policy iff candidate mean > baseline mean ∧ one-sided p < bl_alpha; else nothing changes"),
     Theorem("Rl4co.Train.RolloutBl.acceptsC_eq", "proved", "obligation: `candidate_mean − mean > 0`, `p/2 < bl_alpha` as coded = reference decision"),
     Theorem("Rl4co.Train.RolloutBl.epochCallbackC_eq", "proved", "obligation: epoch_callback as coded (the CANDIDATE is rolled out) = reference"),
+    Theorem("Rl4co.Train.RolloutBl.accepts_iff", "proved", "the decision stated outright: replace ⇔ baseline mean < candidate mean ∧ one-sided p < bl_alpha"),
+    Theorem("Rl4co.Train.RolloutBl.tstat_neg", "proved", "whenever the test is run (candidate better) with positive standard error the paired t statistic is negative: `assert t < 0` never fires"),
+    Theorem("Rl4co.Train.ppoAdv_norm_sum_zero", "proved", "normalize_adv: the normalised advantages sum to zero over the mini-batch, for every value of the std oracle"),
+    Theorem("Rl4co.Train.ppoAdv_norm_sumsq", "proved", "normalize_adv: if std² is the unbiased variance (eps = 0) their sum of squares is B − 1"),
+    Theorem("Rl4co.Train.A2C.groupsC_eq", "proved", "obligation + statement: A2C optimizer groups = (policy, actor lr), (critic, critic lr defaulting to the actor's)"),
+    Theorem("Rl4co.Train.invRowsC_eq", "proved", "obligation: invariance_loss compares rows b·A and b·A+i (pattern '(b a) …')"),
+    Theorem("Rl4co.Train.invariance_pairs_counterexample", "proved", "observation outside C16's clauses: those rows are NOT the same instance (A=2, B=3)"),
+    Theorem("Rl4co.Train.invariance_rows_in_range", "proved", "the rows compared lie inside the augmented batch"),
+    Theorem("Rl4co.Spec.Train.surrogate_add", "proved", "Spec sanity: the surrogate is linear in the log-likelihood direction"),
+    Theorem("Rl4co.Spec.Train.sharedSurrogate_shift", "proved", "Spec sanity: shifting all rewards of an instance by a constant leaves the shared-baseline surrogate unchanged"),
+    Theorem("Rl4co.Spec.Train.ppo_at_ratio_one", "proved", "Spec sanity: at ratio 1 the PPO reference is −mean A + vf·mean huber − ent·mean h"),
     Theorem("Rl4co.Train.RolloutBl.consistent_run", "proved", "after setup and ANY history of callbacks: bl_vals = frozen policy's rewards on its evaluation set, instance by instance; mean = their mean"),
     Theorem("Rl4co.Train.RolloutBl.policy_mem_run", "proved", "the frozen policy is always the initial one or one of the candidates seen"),
     Theorem("Rl4co.Train.RolloutBl.wrap_value", "proved", "wrap_dataset: item i carries the frozen policy's reward on instance i, any evaluation batch size (via Ops.wrap_aligned)"),
